@@ -109,6 +109,8 @@ _SAFE_METHODS = {
     int: {'bit_length'},
 }
 _MAX_POW = 4096
+import operator as _op
+_INPLACE = {ast.BitOr: _op.ior, ast.BitAnd: _op.iand, ast.BitXor: _op.ixor, ast.Sub: _op.isub, ast.Add: _op.iadd, ast.Mult: _op.imul}
 
 
 class Folder:
@@ -559,7 +561,15 @@ class Folder:
                 cur = self.eval(st.target, env, m)
                 v = self.eval(st.value, env, m)
                 op = _BINOPS.get(type(st.op))
-                self._assign(st.target, op(cur, v), env, m)
+                if isinstance(cur, (set, list, dict, bytearray)) and type(st.op) in _INPLACE:
+                    # s |= t, l += t ... on a mutable container change the object itself: every other name bound to it sees it
+                    try:
+                        res = _INPLACE[type(st.op)](cur, v)
+                    except TypeError as e:
+                        raise Unfoldable(str(e)) from e
+                    self._assign(st.target, res, env, m)
+                else:
+                    self._assign(st.target, op(cur, v), env, m)
             elif isinstance(st, ast.For):
                 it = self.eval(st.iter, env, m)
                 broke = False
